@@ -35,7 +35,9 @@ var KindNames = [NumKinds]string{"ACT", "LONLY", "LLATER", "SONLY", "SLATER", "D
 func IsLicenseKind(k int) bool { return k >= KAct && k <= KFold }
 
 // UnknownIDs never start with AND/OR/WITH, are not listed, and are not a listed id plus suffix.
-var UnknownIDs = []string{"FOO", "Bar-2.0", "not-a-license", "MIT-9.9", "zzz", "GPL-9.0", "X.Y", "Apache-3.0", "l", "9"}
+var UnknownIDs = []string{"FOO", "Bar-2.0", "not-a-license", "MIT-9.9", "zzz", "GPL-9.0", "X.Y", "Apache-3.0", "l", "9",
+	// suffixes and prefixes are matched exactly (C09): in another letter case they make an unknown id
+	"MIT-ONLY", "Apache-2.0-OR-LATER", "mit-Only", "Zlib-Or-Later", "licenseref-x", "LICENSEREF-X", "documentref-d", "Licenseref-a"}
 
 var lowOps = []string{"and", "or", "with", "And", "Or", "With"}
 
@@ -66,7 +68,7 @@ func (u *Universe) Lexeme(k int, r *Rand) string {
 	case KExc:
 		return cm(r.Pick(u.Exceptions))
 	case KUnk:
-		return r.Pick(UnknownIDs)
+		return r.Pick(u.Unknown)
 	case KLRef:
 		return "LicenseRef-" + r.Pick(RefNames)
 	case KDRef:
